@@ -43,6 +43,18 @@ def _runnable(opt):
 # --- end T2
 
 
+class _Missing:
+    """stands for a function the current source no longer defines: translating it fails (TranslateError path), so the definition is
+    missing and its tie theorem breaks – a broken obligation, not an internal error"""
+
+    def __init__(self, module, name):
+        self.__module__, self.__name__, self.__qualname__ = getattr(module, "__name__", str(module)), name, name
+
+
+def _resolve(module, name):
+    return getattr(module, name, None) or _Missing(module, name)
+
+
 def _specs_base():
     from . import translate as tr
     from orquestra.quantum.circuits import _itertools, _unitary_tools
@@ -51,28 +63,28 @@ def _specs_base():
     from orquestra.quantum.estimation import _estimation as _est
     # property -> [(python function, lean name, argument types, result type, partial?)]
     return {
-        "C13": [(_itertools._expand_sample_size, "expand_sample_size", [tr.INT, tr.INT], "(List Int) × Int", False),
-                (_itertools.expand_sample_sizes, "expand_sample_sizes", [tr.LOPAQUE, tr.LIST, tr.INT],
+        "C13": [(_resolve(_itertools, "_expand_sample_size"), "expand_sample_size", [tr.INT, tr.INT], "(List Int) × Int", False),
+                (_resolve(_itertools, "expand_sample_sizes"), "expand_sample_sizes", [tr.LOPAQUE, tr.LIST, tr.INT],
                  "(List α) × (List Int) × (List Int)", False,
                  {"known": {"_expand_sample_size": ("expand_sample_size", [tr.INT, tr.INT], "(List Int) × Int")}})],
-        "C01": [(_unitary_tools._permute, "permute", [tr.LIST, tr.LIST], tr.LIST, False),
-                (_unitary_tools._permutation_making_qubits_adjacent, "permutation_making_qubits_adjacent",
+        "C01": [(_resolve(_unitary_tools, "_permute"), "permute", [tr.LIST, tr.LIST], tr.LIST, False),
+                (_resolve(_unitary_tools, "_permutation_making_qubits_adjacent"), "permutation_making_qubits_adjacent",
                  [tr.LIST, tr.INT], tr.LIST, False),
-                (_unitary_tools._basis_bitstring, "basis_bitstring", [tr.INT, tr.INT], tr.LIST, False)],
-        "C09": [(utils.bin2dec, "bin2dec", [tr.LIST], tr.INT, False),
-                (utils.dec2bin, "dec2bin", [tr.INT, tr.INT], tr.LIST, True)],
-        "C04": [(utils.bitstring_to_tuple, "bitstring_to_tuple", [tr.STR], tr.LIST, False),
-                (utils.tuple_to_bitstring, "tuple_to_bitstring", [tr.LIST], tr.STR, False),
-                (_meas.convert_bitstring_to_int, "convert_bitstring_to_int", [tr.LIST], tr.INT, False)],
-        "C10": [(_par.check_parity, "check_parity_str", [tr.STR, tr.LIST], tr.BOOL, False),
-                (_par.check_parity, "check_parity_tuple", [tr.LIST, tr.LIST], tr.BOOL, False)],
-        "C15": [(_est.split_estimation_tasks_to_measure, "split_estimation_tasks_to_measure", [tr.LOPAQUE],
+                (_resolve(_unitary_tools, "_basis_bitstring"), "basis_bitstring", [tr.INT, tr.INT], tr.LIST, False)],
+        "C09": [(_resolve(utils, "bin2dec"), "bin2dec", [tr.LIST], tr.INT, False),
+                (_resolve(utils, "dec2bin"), "dec2bin", [tr.INT, tr.INT], tr.LIST, True)],
+        "C04": [(_resolve(utils, "bitstring_to_tuple"), "bitstring_to_tuple", [tr.STR], tr.LIST, False),
+                (_resolve(utils, "tuple_to_bitstring"), "tuple_to_bitstring", [tr.LIST], tr.STR, False),
+                (_resolve(_meas, "convert_bitstring_to_int"), "convert_bitstring_to_int", [tr.LIST], tr.INT, False)],
+        "C10": [(_resolve(_par, "check_parity"), "check_parity_str", [tr.STR, tr.LIST], tr.BOOL, False),
+                (_resolve(_par, "check_parity"), "check_parity_tuple", [tr.LIST, tr.LIST], tr.BOOL, False)],
+        "C15": [(_resolve(_est, "split_estimation_tasks_to_measure"), "split_estimation_tasks_to_measure", [tr.LOPAQUE],
                  "(List α) × (List α) × (List Int) × (List Int)", False,
                  {"attrs": {"operator.is_constant": tr.BOOL, "number_of_shots": tr.OPTINT},
                   "local_types": {"estimation_tasks_to_measure": tr.LOPAQUE, "estimation_tasks_not_to_measure": tr.LOPAQUE,
                                   "indices_to_measure": tr.LIST, "indices_not_to_measure": tr.LIST}})],
-        "C12": [(wavefunction._most_significant_set_bit, "most_significant_set_bit", [tr.INT], tr.INT, False),
-                (wavefunction._get_next_number_with_same_hamming_weight, "next_number_with_same_hamming_weight",
+        "C12": [(_resolve(wavefunction, "_most_significant_set_bit"), "most_significant_set_bit", [tr.INT], tr.INT, False),
+                (_resolve(wavefunction, "_get_next_number_with_same_hamming_weight"), "next_number_with_same_hamming_weight",
                  [tr.INT], tr.INT, False)],
     }
 
